@@ -459,7 +459,7 @@ pub fn msg_class(msg: &str) -> String {
     let mut out = String::new();
     let mut in_num = false;
     // quoted content (token text, values) is case-specific: cut it off
-    let msg = msg.split('`').next().unwrap_or("");
+    let msg = msg.split(|c| c == '`' || c == '\'').next().unwrap_or("");
     for ch in msg.chars().take(60) {
         if ch.is_ascii_digit() {
             if !in_num {
